@@ -131,7 +131,15 @@ def run_impl(case):
     abn = sorted([NAMES.index(k), ADDRS.index(v)] for k, v in nm.addrByName.items())
     nba = sorted([ADDRS.index(k), NAMES.index(v)] for k, v in nm.nameByAddr.items())
     # snapshots after every op for the oracle
-    return {"raised": None, "results": results, "abn": abn, "nba": nba}
+    # the two properties hand out copies: a caller that edits what it was given does not reach the registry
+    before = (dict(nm._addrByName), dict(nm._nameByAddr)) if hasattr(nm, "_addrByName") else None
+    a, b = nm.addrByName, nm.nameByAddr
+    a["__edited__"] = "/edited"; a.pop(next(iter(a)), None)
+    b["/edited2"] = "__edited2__"; b.pop(next(iter(b)), None)
+    leak = None
+    if (nm.addrByName, nm.nameByAddr) != (dict((NAMES[k], ADDRS[v]) for k, v in abn), dict((ADDRS[k], NAMES[v]) for k, v in nba)):
+        leak = f"editing the dicts returned by .addrByName/.nameByAddr changed the registry: {nm.addrByName} / {nm.nameByAddr}"
+    return {"raised": None, "results": results, "abn": abn, "nba": nba, "leak": leak}
 
 
 def oracle(case, obs):
@@ -147,6 +155,8 @@ def oracle(case, obs):
         if not bad:
             return f"Namer(entries=...) raised {obs['raised']} on consistent entries {ents}"
         return None
+    if obs.get("leak"):
+        return obs["leak"]
     abn = {k: v for k, v in obs["abn"]}
     nba = {k: v for k, v in obs["nba"]}
     if {v: k for k, v in abn.items()} != nba or len(set(abn.values())) != len(abn):
